@@ -53,9 +53,22 @@ func TestVerifReplay(t *testing.T) {
 		{"chars impossible-looking requirement", func() (*Password, error) {
 			return CharRecipe{Length: 10, AllowChars: "abcdefghijklmnopqrstuvwxyz", RequireSets: []string{"Q"}}.Generate()
 		}},
+		{"chars 8 non-ASCII alphabet", func() (*Password, error) { return CharRecipe{Length: 8, AllowChars: "äöüßéñ日本語"}.Generate() }},
 		{"words 4 one-cap digits", mk(4, CSOne, SFDigits1)},
 		{"words 3 random-cap symbols", mk(3, CSRandom, SFSymbols)},
 		{"words 5 none", mk(5, CSNone, nil)},
+	}
+	// diagnostics of the constructor: counts only, never the words
+	{
+		dup := []string{"correct", "horse", "battery", "staple", "correct", "horse", "battery", "staple", "Horse"}
+		out := c18Capture(func() { NewWordList(dup) })
+		for _, w := range dup {
+			if strings.Contains(strings.ToLower(out), strings.ToLower(w)) {
+				vReport(vHit{Input: map[string]interface{}{"NewWordList": dup}, Observed: "library output names a word of the list: " + strings.TrimSpace(c18Head(out)),
+					Required: "diagnostics contain counts and probabilities only"})
+				return
+			}
+		}
 	}
 	tapes := [][]byte{nil, make([]byte, 1<<16)} // nil: real source; all-zero tape: every draw is index 0, required sets are never hit
 	for i := 0; i < 3; i++ {
